@@ -81,6 +81,23 @@ class SigmaRuleBase:
             except ValueError:
                 pass
 
+    @staticmethod
+    def document_as_map(
+        document: Any,
+        collect_errors: bool = False,
+        source: SigmaRuleLocation | None = None,
+    ) -> tuple[dict[str, Any], list[SigmaError]]:
+        """
+        Ensure that a parsed document is a map. A document of another type is an error that is
+        raised or, if errors are collected, returned together with an empty map as replacement.
+        """
+        if isinstance(document, dict):
+            return document, []
+        error = sigma_exceptions.SigmaTypeError("Sigma document must be a map", source=source)
+        if not collect_errors:
+            raise error
+        return dict(), [error]
+
     @classmethod
     def from_dict_common_params(
         cls: type[Self],
